@@ -323,7 +323,7 @@ def main():
     violations = []; known_hits = []; tool_errors = []; run_reports = []
     n_obl = n_dis = 0; samples = []; assumptions = set(spec.get("assumptions", []))
     functions = set()
-    if not args.only: shutil.rmtree(os.path.join(VERIF, "replays", prop), ignore_errors=True)
+    shutil.rmtree(os.path.join(VERIF, "replays", prop), ignore_errors=True)
     os.makedirs(os.path.join(VERIF, "replays", prop), exist_ok=True)
     for run in runs:
         rep = {"id": run.id, "kind": run.kind, "bound": run.s.get("bound"), "functions_under_contract": run.s.get("functions", []),
@@ -338,12 +338,16 @@ def main():
             rep["status"] = "tool-error"; rep["error"] = run.error[-1500:]
             tool_errors.append((run, run.error)); run_reports.append(rep); continue
         res = [r for r in run.results if not INTERNAL_FN_RE.match((r.get("sourceLocation", {}) or {}).get("function", "") or "")]
+        odd = [r for r in res if r["status"] not in ("SUCCESS", "FAILURE")]
+        if odd and not any(r["status"] == "FAILURE" and not r["description"].startswith("canary:") for r in res):
+            tool_errors.append((run, "back end did not decide %d obligations (status %s): out of memory or solver error; cbmc said: %s" % (len(odd), odd[0]["status"], " | ".join(run.log.splitlines()[-4:])[:400]))); rep["status"] = "tool-error: undecided by back end"; run_reports.append(rep); continue
         canary = [r for r in res if r["description"].startswith("canary:")]
         obl = [r for r in res if not r["description"].startswith("canary:")]
         if not run.s.get("no_canary"):
             if not canary: tool_errors.append((run, "no canary obligation in harness")); rep["status"] = "tool-error"; run_reports.append(rep); continue
             if any(c["status"] != "FAILURE" for c in canary):
-                tool_errors.append((run, "VACUOUS: canary assertion not reachable (contradictory requires/assume?)")); rep["status"] = "tool-error: vacuous"; run_reports.append(rep); continue
+                uw = [r["property"] for r in obl if r["status"] == "FAILURE" and ("unwinding assertion" in r["description"] or ".unwind." in r["property"])]
+                tool_errors.append((run, "VACUOUS: canary assertion not reachable (contradictory requires/assume, or every path cut by an unwinding bound: %s)" % (uw[:6] or "no unwinding assertion failed"))); rep["status"] = "tool-error: vacuous"; run_reports.append(rep); continue
         # must-fire list
         missing = [m for m in run.s.get("must_fire", []) if not any(re.search(m, r["description"]) or re.search(m, r["property"]) for r in obl)]
         if re.search(r"ignoring (forall|exists)", run.log): tool_errors.append((run, "quantifier ignored by back end"))
